@@ -149,6 +149,48 @@ def h_crash(p: int, j: int, template: str, tail: int) -> None:
     reached()
 
 
+def h_finish_fault(f: int, template: str) -> None:
+    """The f-th low-level operation of tpc_finish (the write of the status byte, the flush, the fsync) fails.  The commit
+    must not return as if it had succeeded - "a commit does not return before its data has been forced to stable
+    storage" - and what is on disk afterwards is a prefix: the history with or without this transaction, in full."""
+    assume(f >= 0)
+    with untraced():
+        from zverif.harness.c05 import RECS
+        env, s, h = T.build_file(template)
+        fs = env.fs
+        before = [B.txn_view(t_) for t_ in s.iterator()]
+        t = T.meta(b'u', b'finishing')
+        s.tpc_begin(t)
+        for o, d in RECS:
+            s.store(o, h.serial.get(o, T.Z64), d, '', t)
+        s.tpc_vote(t)
+    fs.fail_at = fs.nops + f
+    with untraced():
+        try:
+            s.tpc_finish(t)
+            returned = True
+        except Exception:
+            returned = False
+        fs.fail_at = None
+        assume(bool(fs.fault_log))              # f beyond the last operation of the finish: nothing to see
+        note('fired', fs.fault_log[-1][1])
+        check(not returned, 'tpc_finish returned normally although one of its I/O operations (status byte write / flush / fsync) '
+                            'failed: the commit is reported before its data is on stable storage', fs.fault_log[-1][1])
+        try:
+            s.close()
+        except Exception:
+            pass
+        s2 = env.filestorage()
+        after = [B.txn_view(t_) for t_ in s2.iterator()]
+        check(after[:len(before)] == before and len(after) in (len(before), len(before) + 1),
+              'after a failed finish the file does not hold the previous history plus at most this transaction', len(before), len(after))
+        if len(after) > len(before):
+            check(sorted((r[0], r[2]) for r in after[-1][5]) == sorted(RECS), 'the transaction of the failed finish is present only in part')
+        s2.close()
+    reached()
+
+
+from zverif.harness.c05 import h_fault as _failed_vote  # noqa: E402
 from zverif.harness.c05 import h_fault_late as _failed_exit, known_abort_truncate_fault  # noqa: E402,F401
 
 HARNESSES = [
@@ -172,6 +214,19 @@ HARNESSES = [
             code=['BaseStorage.tpc_begin (_clear_temp)', 'FileStorage.tpc_finish'],
             quick=dict(timeout=60, shards=shards(template=['T1'], where=['finish_cb', 'abort'], probe=[False])),
             thorough=dict(timeout=60, shards=shards(template=['T1', 'T4'], where=['finish_cb', 'abort'], probe=[False]))),
+    Harness('failed_vote', _failed_vote,
+            decides='an I/O error at any low-level operation of begin/store/vote (optionally after a short write): after the abort the '
+                    'data file is byte-identical - nothing of the failed transaction is left for a later open to find (same harness as C05 fault)',
+            symbolic='f = index of the failing operation, short = length of the preceding short write', bounds='template T1, 3 records',
+            oracle='pre-state bytes + RevStore battery', code=['FileStorage.tpc_vote (failure branch)', '_abort', 'BaseStorage.tpc_abort'],
+            quick=dict(timeout=100, shards=shards(template=['T1'], nrec=[3], use_short=[False, True])),
+            thorough=dict(timeout=300, shards=shards(template=['T1', 'T4'], nrec=[1, 3], use_short=[False, True]))),
+    Harness('finish_fault', h_finish_fault,
+            decides='if any low-level operation of tpc_finish fails (status byte write, flush, fsync) the commit does not return normally, '
+                    'and the file then holds the previous history plus at most this transaction, in full',
+            symbolic='f = index of the failing operation of tpc_finish', bounds='templates T1 (thorough: T4); transaction of 3 records',
+            oracle='iteration before / after reopen', code=['FileStorage.tpc_finish', '_finish', '_finish_finish (fsync)'],
+            quick=dict(timeout=60, shards=shards(template=['T1'])), thorough=dict(timeout=60, shards=shards(template=['T1', 'T4']))),
 ]
 
 MANIFEST = dict(
